@@ -661,6 +661,72 @@ def translate_optable(path: str) -> tuple[str, list[TranslationError]]:
     return "".join(out), errors
 
 
+def translate_switches(fl_dir: str) -> tuple[str, list[TranslationError]]:
+    """Boolean facts about the SHAPE of three hand-modelled functions, read off their ASTs, so that the hand models
+    follow /repo when one of the known defects is repaired or re-introduced:
+      consequent_modify_carries_degree  Consequent.modify's hedge loop assigns the loop-carried parameter (known finding F1)
+      antecedent_final_check_on_stack   Antecedent.load's final-state check applies `&` to `stack` instead of `state` (F6)
+      is_ready_disjunction_nested       Engine.is_ready's missing-disjunction check sits inside the missing-conjunction branch (F9)
+    Anything unexpected is an error (fail closed)."""
+    errors: list[TranslationError] = []
+    vals: dict[str, bool] = {}
+
+    def cls_method(path, cls, meth):
+        tree = ast.parse(open(path).read())
+        c = next((n for n in tree.body if isinstance(n, ast.ClassDef) and n.name == cls), None)
+        m = find_method(c, meth) if c else None
+        if m is None:
+            raise TranslationError(f"{os.path.basename(path)}:{cls}.{meth}", "not found")
+        return m
+
+    try:
+        m = cls_method(os.path.join(fl_dir, "rule.py"), "Consequent", "modify")
+        param = m.args.args[1].arg
+        loops = [n for n in ast.walk(m) if isinstance(n, ast.For) and isinstance(n.target, ast.Name) and n.target.id == "hedge"]
+        if len(loops) != 1 or len(loops[0].body) != 1 or not isinstance(loops[0].body[0], ast.Assign):
+            raise TranslationError("rule.py:Consequent.modify", "unexpected hedge loop")
+        a = loops[0].body[0]
+        if not (len(a.targets) == 1 and isinstance(a.targets[0], ast.Name) and isinstance(a.value, ast.Call) and ast.unparse(a.value.func) == "hedge.hedge"
+                and len(a.value.args) == 1 and isinstance(a.value.args[0], ast.Name) and a.value.args[0].id == a.targets[0].id):
+            raise TranslationError("rule.py:Consequent.modify", "unexpected hedge loop body: " + ast.unparse(a))
+        vals["consequent_modify_carries_degree"] = a.targets[0].id == param
+    except TranslationError as e:
+        errors.append(e)
+    try:
+        m = cls_method(os.path.join(fl_dir, "rule.py"), "Antecedent", "load")
+        found = []
+        for n in ast.walk(m):
+            if isinstance(n, ast.If) and isinstance(n.test, ast.BinOp) and isinstance(n.test.op, ast.BitAnd) and isinstance(n.test.left, ast.Name) \
+                    and ast.unparse(n.test.right) == "s_hedge | s_term" and n.test.left.id in ("stack", "state"):
+                # the check AFTER the token loop (the in-loop error branch has the same test on `state`)
+                found.append((n.lineno, n.test.left.id))
+        loops = [n for n in m.body if isinstance(n, ast.For)]
+        after = [f for f in found if loops and f[0] > loops[-1].end_lineno]
+        if len(after) != 1:
+            raise TranslationError("rule.py:Antecedent.load", f"final-state check not recognised: {found}")
+        vals["antecedent_final_check_on_stack"] = after[0][1] == "stack"
+    except TranslationError as e:
+        errors.append(e)
+    try:
+        m = cls_method(os.path.join(fl_dir, "engine.py"), "Engine", "is_ready")
+
+        def mentions(node, name):
+            return any(isinstance(x, ast.Name) and x.id == name for x in ast.walk(node))
+
+        conj = [n for n in ast.walk(m) if isinstance(n, ast.If) and mentions(n.test, "conjunction_needed")]
+        disj = [n for n in ast.walk(m) if isinstance(n, ast.If) and mentions(n.test, "disjunction_needed")]
+        if len(conj) != 1 or len(disj) != 1:
+            raise TranslationError("engine.py:Engine.is_ready", "operator checks not recognised")
+        vals["is_ready_disjunction_nested"] = any(x is disj[0] for x in ast.walk(conj[0]))
+    except TranslationError as e:
+        errors.append(e)
+    out = ["(* GENERATED by tools/translate.py from rule.py / engine.py — do not edit. *)\n"]
+    for k in ("consequent_modify_carries_degree", "antecedent_final_check_on_stack", "is_ready_disjunction_nested"):
+        if k in vals:
+            out.append(f"Definition {k} : bool := {str(vals[k]).lower()}.\n")
+    return "".join(out), errors
+
+
 def write_if_changed(path: str, text: str) -> bool:
     try:
         if open(path).read() == text:
@@ -689,6 +755,9 @@ def run(out_dir: str) -> list[TranslationError]:
     errors += errs
     if text:
         write_if_changed(os.path.join(out_dir, "GenOpTable.v"), text)
+    text, errs = translate_switches(fl)
+    errors += errs
+    write_if_changed(os.path.join(out_dir, "GenSwitches.v"), text)
     # constructor signatures and __repr__ rules (property C15); its own fail-closed translator
     try:
         import translate_signatures
